@@ -749,3 +749,13 @@ class SpecialPointsTable:
 
 register(Obligation(name="C15.special_points.belong_to_the_lattice_vectors", prop=PROP, engine="X", functions=["eminus.data:LATTICE_VECTORS", "eminus.data:SPECIAL_POINTS", "eminus.kpoints:KPoints.__init__"],
                     run=SpecialPointsTable(), doc="exhaustive over the finite tables: every named special point sits at its textbook place on the Brillouin-zone surface of the package's lattice vectors"))
+
+
+# writes-frame of eminus.kpoints (AST; shared rule in contracts/frame_common.py)
+from contracts.frame_common import WritesFrame  # noqa: E402
+
+register(Obligation(name="C15.kpoints.writes_frame", prop=PROP, engine="Z", run=WritesFrame(("eminus.kpoints",)), assumes=("cpython",),
+                    functions=["eminus.kpoints:kpoint_convert", "eminus.kpoints:monkhorst_pack", "eminus.kpoints:gamma_centered", "eminus.kpoints:bandpath", "eminus.kpoints:kpoints2axis",
+                               "eminus.kpoints:get_brillouin_zone", "eminus.kpoints:KPoints.build", "eminus.kpoints:KPoints.trs"],
+                    doc="frame (writes): no function of eminus.kpoints stores in place into a parameter or a possible view of one (cell, k-point arrays handed in by the caller); methods "
+                        "assign fields of their own object only"))
